@@ -215,7 +215,8 @@ pub enum Alg {
 pub enum Traversal {
     Distance,
     SpeedTable,
-    /// energy model with the ICE test vehicle "Toyota_Camry" (smartcore) over the speed table
+    /// energy model over the speed table with the repository's smartcore test vehicles: "Toyota_Camry" (ice),
+    /// "Chevy_Bolt" (bev), "Chevy_Volt" (phev)
     Energy,
 }
 #[derive(Clone, Debug, PartialEq)]
@@ -328,6 +329,11 @@ pub fn config_toml(c: &AppCfg, f: &NetFiles) -> String {
             t += &format!(
                 "[[traversal.vehicles]]\nname = \"Chevy_Bolt\"\ntype = \"bev\"\nmodel_input_file = {}\nmodel_type = \"smartcore\"\nspeed_unit = \"miles_per_hour\"\ngrade_unit = \"decimal\"\nenergy_rate_unit = \"kilowatt_hours_per_mile\"\nideal_energy_rate = 0.2\nreal_world_energy_adjustment = 1.3958\nbattery_capacity = 60\nbattery_capacity_unit = \"kilowatt_hours\"\n",
                 toml_str(&format!("{}/2017_CHEVROLET_Bolt.bin", powertrain_test_dir()))
+            );
+            t += &format!(
+                "[[traversal.vehicles]]\nname = \"Chevy_Volt\"\ntype = \"phev\"\nbattery_capacity = 12\nbattery_capacity_unit = \"kilowatt_hours\"\n[traversal.vehicles.charge_depleting]\nname = \"Chevy_Volt_Charge_Depleting\"\nmodel_input_file = {}\nmodel_type = \"smartcore\"\nspeed_unit = \"miles_per_hour\"\ngrade_unit = \"decimal\"\nenergy_rate_unit = \"kilowatt_hours_per_mile\"\nideal_energy_rate = 0.2\nreal_world_energy_adjustment = 1.3958\n[traversal.vehicles.charge_sustaining]\nname = \"Chevy_Volt_Charge_Sustaining\"\nmodel_input_file = {}\nmodel_type = \"smartcore\"\nspeed_unit = \"miles_per_hour\"\ngrade_unit = \"decimal\"\nenergy_rate_unit = \"gallons_gasoline_per_mile\"\nideal_energy_rate = 0.02\nreal_world_energy_adjustment = 1.1252\n",
+                toml_str(&format!("{}/2016_CHEVROLET_Volt_Charge_Depleting.bin", powertrain_test_dir())),
+                toml_str(&format!("{}/2016_CHEVROLET_Volt_Charge_Sustaining.bin", powertrain_test_dir()))
             );
             t += "[cost]\ncost_aggregation = \"sum\"\nignore_unknown_user_provided_weights = true\n[cost.weights]\ndistance = 1\ntime = 1\nenergy_liquid = 1\nenergy_electric = 1\n[cost.vehicle_rates.time]\ntype = \"raw\"\n[cost.vehicle_rates.distance]\ntype = \"raw\"\n[cost.vehicle_rates.energy_liquid]\ntype = \"raw\"\n[cost.vehicle_rates.energy_electric]\ntype = \"raw\"\n";
         }
